@@ -312,9 +312,21 @@ class rectangle_annulus_bbox:
 
 @contract(COMPOUND + '.bounding_box', props=['C04', 'C08'])
 class compound_bbox:
-    def setup(B):
+    # abstract operands (any class obeying the base contract) and, because code may look at what concrete operands have in common
+    # (a shared centre, equal sizes), two concrete shapes whose parameters are free to coincide
+    cases = {'any': {'operands': 'any'}, 'ellipse_rectangle': {'operands': 'ellipse_rectangle'}, 'circles': {'operands': 'circles'}}
+
+    def setup(B, operands='any'):
         from contracts.common import anybox
-        return dict(self=compound(B, 'c', anyregion(B, 'r1'), anyregion(B, 'r2'), 'or_'), V=anybox(B, 'V'))
+        if operands == 'ellipse_rectangle':
+            r1, r2 = ellipse(B, 'r1'), rectangle(B, 'r2')
+            B.assume(ellipse_ok(r1) and r2.width > 0 and r2.height > 0)
+        elif operands == 'circles':
+            r1, r2 = circle(B, 'r1'), circle(B, 'r2')
+            B.assume(circle_ok(r1) and circle_ok(r2))
+        else:
+            r1, r2 = anyregion(B, 'r1'), anyregion(B, 'r2')
+        return dict(self=compound(B, 'c', r1, r2, 'or_'), V=anybox(B, 'V'))
     pre = lambda self, V: is_bbox(self.region1.bounding_box) and is_bbox(self.region2.bounding_box) and is_bbox(V)
     call = lambda self: self.bounding_box
     post = {
